@@ -6,6 +6,7 @@ import (
 	"github.com/edwingeng/deque/v2"
 	"go.minekube.com/gate/pkg/edition/java/proto/state"
 	"go.minekube.com/gate/pkg/gate/proto"
+	"go.minekube.com/gate/pkg/internal/verifhook"
 )
 
 // maxQueueLen is the maximum number of packets that can be queued
@@ -50,6 +51,7 @@ func (h *PlayPacketQueue) Queue(packet proto.Packet) (bool, error) {
 		if h.queue.Len() >= maxQueueLen {
 			return false, ErrQueueFull
 		}
+		verifhook.Point("pq.queue.checked")
 		h.queue.PushBack(packet)
 		return true, nil
 	}
